@@ -165,8 +165,17 @@ def describe(req, out, fails):
     rot_inferable = (not directional) or (ndir > ndim and ndim >= 2)
     aniso_inferable = (not directional) or (ndir >= 2 and ndim >= 2)
     r3_inferable = (not directional) or any(d[1] != 0 for d in req["dirs"])
+    # where the library itself keeps lock_iso2d / lock_no3d in force (st_alter_model_optvar): in 3-D, lock_iso2d with
+    # at most one horizontal direction (a map: as requested), lock_no3d without any non-horizontal direction;
+    # elsewhere the requested flag is ignored (2-D) or overwritten (3-D)
+    n_hor = sum(1 for d in req["dirs"] if d[1] == 0)
+    iso2d_effective = ndim == 3 and (not directional or n_hor <= 1)
+    no3d_effective = ndim == 3 and directional and n_hor == ndir
     unf = False
     for c in req["cons"]:
+        # second range locked to the first one (3-D with at most one horizontal direction; 3-D map with lock_iso2d)
+        if c["elem"] == "RANGE" and c["iv1"] == 1 and iso2d_effective and (directional or "iso2d" in req["optrow"]):
+            unf = True
         if c["elem"] == "ANGLE" and (not rot_inferable or "rot" in req["optrow"] or "aniso" in req["optrow"] or "iso2d" in req["optrow"]):
             unf = True
         if c["elem"] == "RANGE" and c["iv1"] >= 1 and (not aniso_inferable or "aniso" in req["optrow"]):
@@ -185,7 +194,8 @@ def describe(req, out, fails):
     rec = {"clause": None, "entry": req["entry"], "nvar": req["nvar"], "multivariate": req["nvar"] > 1, "ndim": ndim,
            "geom": req["geom"], "ndir": ndir, "recipe": req["recipe"], "empty": req["empty"],
            "types": "+".join(req["types"]), "nstruct": len(req["types"]), "consname": req["consname"], "conskinds": "+".join(kinds),
-           "item_on_uninferred_parameter": unf, "structures_dropped": dropped, "sill_item_on_discarded_structure": sill_on_dropped,
+           "item_on_uninferred_parameter": unf, "structures_dropped": dropped,
+           "iso2d_lock_effective": iso2d_effective, "no3d_lock_effective": no3d_effective, "sill_item_on_discarded_structure": sill_on_dropped,
            "csill": req["csill"] > 0, "optrow": "+".join(sorted(req["optrow"])), "maxiter": req["maxiter"],
            "wmode": req["wmode"], "truth": req["truthname"], "fails": fails}
     rec.update(flips)
@@ -316,7 +326,7 @@ def _run(ck, tier):
     ck.cov["requests_slower_than_20s"] = slow
     ck.cov["rejected_by_contract"] = len(rejected)
     ck.cov["per_entry_nvar_ok_fail"] = dict(per_entry)
-    ck.cov["rule"] = ("request = base request (4 bases x nvar 1..3) varied in %s among entry point, geometry, true model, recipe, "
+    ck.cov["rule"] = ("request = base request (5 bases x nvar 1..3) varied in %s among entry point, geometry, true model, recipe, "
                       "empty lags, structures, constraint set, constant sill, option row, weighting, max iterations; each executed "
                       "on the real fitting entry points in its own process; each outcome judged by TLC with Violations(request, outcome); "
                       "TLC also lists the categories without a successful fit (none allowed)"
